@@ -57,6 +57,9 @@ def cases(tier):
             C.append({"kind": "hand", "which": "leaky_tanh", "dim": dim, "orient": orient})
             C.append({"kind": "hand", "which": "triaffine_leaky", "dim": dim, "orient": orient})
         C.append({"kind": "hand", "which": "planar", "dim": dim, "orient": "as_is"})
+        # planar layers with O(1) weights (|w| > 1, w.u of both signs): the regime in which the invertibility projection of u matters
+        C.append({"kind": "hand", "which": "planar_big_tanh", "dim": dim, "orient": "as_is"})
+        C.append({"kind": "hand", "which": "planar_big_leaky", "dim": dim, "orient": "as_is"})
         for depth in (0, 2):
             C.append({"kind": "hand", "which": "bnaf", "dim": dim, "orient": "inverted", "depth": depth})
     return C
@@ -208,6 +211,15 @@ def run_shard(shard):
                          B.Affine(jnp.zeros(dim), jnp.full((dim,), 2.0))])
         elif c["which"] == "planar":
             b = B.Invert(B.Chain([B.Planar(k[0], dim=dim, negative_slope=0.3), B.Planar(k[1], dim=dim, negative_slope=0.6)]))
+        elif c["which"] in ("planar_big_tanh", "planar_big_leaky"):
+            ns = None if c["which"].endswith("tanh") else 0.3
+            def big(kk):
+                pl = B.Planar(kk, dim=dim, negative_slope=ns)
+                w = 1.6 * jr.normal(jr.fold_in(kk, 1), (dim,))
+                u = 1.6 * jr.normal(jr.fold_in(kk, 2), (dim,))
+                u = jnp.where(jnp.dot(w, u) < -20.0, -u, u)  # keep w.u representable (DESIGN 4/C11)
+                return eqx.tree_at(lambda p_: p_.params, pl, jnp.concatenate([w, u, 0.5 * jr.normal(jr.fold_in(kk, 3), (1,))]))
+            b = B.Invert(B.Chain([big(k[0]), big(k[1])]))
         elif c["which"] == "bnaf":
             b = B.BlockAutoregressiveNetwork(k[0], dim=dim, depth=c["depth"], block_dim=2)
         else:
@@ -233,7 +245,7 @@ def run_shard(shard):
             rec.violation(f"build.{type(e).__name__}", f"{name}: constructor raised {type(e).__name__}: {str(e)[:200]}", it, ("init", 0.0), {})
             continue
         planar = "planar" in str(c.get("factory", c.get("which")))
-        dist = perturb(dist0, min(sigma, 0.5) if planar else sigma, job["pseed"] + 1, clip=6.0)
+        dist = perturb(dist0, (0.1 if "planar_big" in str(c.get("which")) else min(sigma, 0.5)) if planar else sigma, job["pseed"] + 1, clip=6.0)
         numeric_lp = (c.get("factory") == "block_neural_autoregressive_flow" and not c["invert"])
         conds = [None]
         if c.get("cond_dim"):
@@ -285,6 +297,9 @@ def run_shard(shard):
                 if c.get("factory") == "block_neural_autoregressive_flow" and c["invert"]:
                     n = 4000  # sampling needs the bisection search per draw
                 smp = np.asarray(dist.sample(key, (n,), cond), dtype=np.float64)
+            except NotImplementedError:
+                rec.count("sampler_direction_not_implemented")  # planar tanh has no analytic inverse (documented)
+                continue
             except Exception as e:  # noqa: BLE001
                 rec.violation(f"exception.{type(e).__name__}", f"{name}: sample raised {type(e).__name__}: {str(e)[:200]}", it, ("init", 0.0), {})
                 continue
